@@ -233,30 +233,71 @@ def onInvocation (b : Box K N P C) (codec : InnerCodec X Y P) (s : Codec K) (pro
   | .decoded a kw => .invoked a kw true
   | .rejected e => .encError e
 
-/-- the success path of an invocation: `if msg.enc_algo: … try: encode(False, proc, …) except: log` -/
-def yieldMsg (b : Box K N P C) (codec : InnerCodec X Y P) (s : Codec K) (invocationEncrypted : Bool) (proc : Uri)
-    (a : Option X) (kw : Option Y) (nonce : N) : AppPayload X Y C :=
-  if invocationEncrypted then
-    match s with
-    | none => clearMsg a kw                     -- "trying to send encrypted payload, but no keyring active"
-    | some ring =>
-      match encode b codec ring false proc a kw nonce with
-      | .sealed c => sealedMsg c
-      | .clear => clearMsg a kw
-      | .raised => clearMsg a kw                -- "failed to encrypt application payload" — sent in clear (U1)
-  else clearMsg a kw
+/-- the fixed texts of the replies that stand in for a payload which may not be sent. Each is an `args` list holding
+one string built from the procedure / error URI (and, for the last, the text of the codec's exception) — never from
+the payload; here: parameters that the reply functions cannot compute from `args` / `kwargs`. -/
+structure Notes (X : Type) where
+  /-- 'success return value from invoked procedure "…" could not be encrypted' -/
+  resultNotEncrypted : X
+  /-- 'arguments of error "…" not sent: the request was encrypted, but there is no key to encrypt the error' -/
+  errorArgsNotSent : X
+  /-- 'error return value from invoked procedure "…" could not be turned into a WAMP error message: …' -/
+  errorNotEncodable : X
+deriving Repr, DecidableEq
 
-/-- `_message_from_exception`: `if self._payload_codec: encode(False, error, args, kwargs)` — keyed by the ERROR URI,
-whether or not the invocation was encrypted -/
-def errorMsg (b : Box K N P C) (codec : InnerCodec X Y P) (s : Codec K) (errorUri : Uri) (a : Option X) (kw : Option Y)
-    (nonce : N) : Sent (AppPayload X Y C) :=
+def invalidPayloadUri : Uri := "wamp.error.invalid_payload".toList
+
+/-- what the callee sends in answer to an INVOCATION -/
+inductive Reply (X Y C : Type)
+  | yield (m : AppPayload X Y C)
+  | error (uri : Uri) (m : AppPayload X Y C)
+deriving Repr, DecidableEq
+
+def Reply.msg {X Y C : Type} : Reply X Y C → AppPayload X Y C
+  | .yield m => m
+  | .error _ m => m
+
+/-- the success path of an invocation: `if msg.enc_algo: … try: encode(False, proc, …) except: log`, then
+`if encoded_payload: Yield(payload=…) elif msg.enc_algo: Error(INVALID_PAYLOAD, [text]) else: Yield(args, kwargs)` —
+the result of an encrypted invocation leaves sealed or not at all -/
+def yieldReply (b : Box K N P C) (codec : InnerCodec X Y P) (t : Notes X) (s : Codec K) (invocationEncrypted : Bool)
+    (proc : Uri) (a : Option X) (kw : Option Y) (nonce : N) : Reply X Y C :=
+  if invocationEncrypted then
+    let sealed : Option C :=
+      match s with
+      | none => none                            -- "trying to send encrypted payload, but no keyring active"
+      | some ring =>
+        match encode b codec ring false proc a kw nonce with
+        | .sealed c => some c
+        | .clear => none
+        | .raised => none                       -- "failed to encrypt application payload" (logged)
+    match sealed with
+    | some c => .yield (sealedMsg c)
+    | none => .error invalidPayloadUri (clearMsg (some t.resultNotEncrypted) none)
+  else .yield (clearMsg a kw)
+
+/-- `_message_from_exception(…, enc_algo)`: `if self._payload_codec: encode(False, error, args, kwargs)` — keyed by the
+ERROR URI; `elif enc_algo:` (the request was encrypted, nothing covers the error URI) the ERROR keeps its URI and
+carries the fixed text instead of the exception's arguments -/
+def errorMsg (b : Box K N P C) (codec : InnerCodec X Y P) (t : Notes X) (s : Codec K) (requestEncrypted : Bool)
+    (errorUri : Uri) (a : Option X) (kw : Option Y) (nonce : N) : Sent (AppPayload X Y C) :=
+  let unsealed : AppPayload X Y C :=
+    if requestEncrypted then clearMsg (some t.errorArgsNotSent) none else clearMsg a kw
   match s with
-  | none => .msg (clearMsg a kw)
+  | none => .msg unsealed
   | some ring =>
     match encode b codec ring false errorUri a kw nonce with
     | .sealed c => .msg (sealedMsg c)
-    | .clear => .msg (clearMsg a kw)
+    | .clear => .msg unsealed
     | .raised => .raised
+
+/-- the errback of an invocation: `try: reply = _message_from_exception(…, msg.enc_algo) except Exception: reply =
+Error(INVALID_PAYLOAD, [text])` — an ERROR is always sent -/
+def invocationErrorReply (b : Box K N P C) (codec : InnerCodec X Y P) (t : Notes X) (s : Codec K)
+    (invocationEncrypted : Bool) (errorUri : Uri) (a : Option X) (kw : Option Y) (nonce : N) : Reply X Y C :=
+  match errorMsg b codec t s invocationEncrypted errorUri a kw nonce with
+  | .msg m => .error errorUri m
+  | .raised => .error invalidPayloadUri (clearMsg (some t.errorNotEncodable) none)
 
 /-- outcome of the caller's pending call -/
 inductive CallOut (X Y : Type)
@@ -297,6 +338,14 @@ def onErrorMapped (b : Box K N P C) (codec : InnerCodec X Y P) (s : Codec K) (ma
     match mapped errorUri with
     | some c => if ctorOk c a kw then .userError c a kw else .appError errorUri a kw
     | none => .appError errorUri a kw
+
+/-- the entries every session's `_uri_to_ecls` starts with (`BaseSession.__init__`): the caller sees
+`wamp.error.invalid_payload` as `SerializationError(*args)` and `wamp.error.payload_size_exceeded` as
+`PayloadExceededError(*args)`; entries the application adds with `define` come first -/
+def defaultMapped (u : Uri) : Option String :=
+  if u = invalidPayloadUri then some "SerializationError"
+  else if u = "wamp.error.payload_size_exceeded".toList then some "PayloadExceededError"
+  else none
 
 def EncErr.uri : EncErr → Uri
   | .noPayloadCodec => "wamp.error.no_payload_codec".toList
